@@ -4,6 +4,7 @@ import shutil
 import tempfile
 
 from lib import common as C
+from lib import lockskel as LS
 from lib import histgen as G
 from lib import histcheck as H
 from lib import histprops as P
@@ -152,6 +153,8 @@ def run(rep):
              "an instance prepared by an earlier process is opened AFTER another instance in a fresh process, written, reopened "
              "(the witness of the repaired defect D1); non-trivial = a read after a write of the same key")
     fsdbh = C.FSDBH
+    # "the newest version in memory is the one Load will pick" needs: number, record and list append in ONE critical section
+    sk = LS.check(rep, fsdbh, ["Store", "UpdateTx"])
     nm = 24 if rep.tier == "quick" else 400
     multi = [gen_multi(rng, "mi%d" % i, rng.choice([2, 2, 3])) for i in range(nm)]
 
@@ -163,7 +166,34 @@ def run(rep):
                         cross_process_runs=len(runs), cross_process_mismatches=bad_cross,
                         cross_process_sample=runs[:1],
                         refuted_theorems=["C05_later_writes_win_refuted_orig (original sequence.Set; repaired by a fix: commit)"])
-    rep.coverage["evaluations"] += len(multi) + len(runs)
+    # (d) concurrent writers of one key, then Close/Open: what was readable before Close is readable after Open
+    nc = (40 if rep.tier == "quick" else 600) * (4 if LS.broken(sk) else 1)
+    conc = []
+    for i in range(nc):
+        k = rng.randint(2, 4)
+        ls = ["case cw%d roots=1" % i, "keytab 6b31 6b32"]
+        v = 0
+        for _ in range(rng.randint(1, 3)):
+            grp = []
+            for _ in range(k):
+                v += 1
+                grp.append("set 0 %d %d %d s" % (rng.choice([1, 1, 2]), v, rng.choice([1, 5, 2049])))
+            ls.append("par " + " || ".join(grp))
+        ls += ["get 0 1 g", "get 0 2 g", "keys 0", "reopen", "get 0 1 g", "get 0 2 g", "keys 0", "end"]
+        conc.append("\n".join(ls))
+    cout = H.run_sharded(fsdbh, "hist", conc)
+    bad_conc = 0
+    for c, o in zip(conc, cout):
+        if o[-8:-5] != o[-4:-1]:
+            bad_conc += 1
+            if bad_conc <= 2:
+                rep.violation(dict(kind="oracle", what="after concurrent writes to one key, what Get/GetKeys returned before Close "
+                                   "differs from what they return after Open, with no write in between", case=c, impl=o,
+                                   before_close=o[-8:-5], after_open=o[-4:-1]))
+    rep.coverage.update(concurrent_writer_cases=len(conc), concurrent_writer_mismatches=bad_conc)
+    LS.conclude(rep, sk, "the sequence number, the persisted record and the in-memory append of a write are one critical section, so "
+                         "memory order = persisted order: C08_needs_held / C06_one_critical_section for Store and UpdateTx")
+    rep.coverage["evaluations"] += len(multi) + len(runs) + len(conc)
     rep.assumptions = ["other instances in the process influence this one only through the global sequence counter",
                        "Close drains the worker pool first (pending cleaner jobs at Close are re-derived by Load)"]
 
